@@ -26,13 +26,33 @@ namespace {
 std::atomic<long> g_deadline_ms(0);   // 0 = no case running
 std::string g_case;
 long now_ms() { return std::chrono::duration_cast<std::chrono::milliseconds>(std::chrono::steady_clock::now().time_since_epoch()).count(); }
+// Progress-based watchdog: after the (soft) deadline a hang is reported only when every other thread of the process has been
+// asleep for 30 consecutive samples (3 s); a run that is merely slow on a loaded machine keeps a thread runnable.
 void watchdog() {
+  pid_t self = procstate::ktid(), pid = getpid();
+  int idle = 0;
   for (;;) {
     usleep(100000);
     long d = g_deadline_ms.load();
-    if (d && now_ms() > d) { std::cout << "HANG watchdog expired: threads did not finish" << std::endl; _exit(3); }
+    if (!d) { idle = 0; continue; }
+    long now = now_ms();
+    if (now <= d) { idle = 0; continue; }
+    idle = procstate::process_idle(pid, self) ? idle + 1 : 0;
+    if (idle >= 30 || now > d + 900000) {
+      std::cout << "HANG watchdog: " << (idle >= 30 ? "every thread asleep for 3 s after the deadline" : "still running 15 min after the deadline") << ": threads did not finish" << std::endl;
+      _exit(3);
+    }
   }
 }
+// Signals: a no-op handler installed WITHOUT SA_RESTART, so a thread parked in sem_wait gets EINTR.  The storm thread sends
+// process-directed SIGUSR1 (main and watchdog block it, so it lands on a worker thread) every ~150 us while enabled.
+void noop_handler(int) {}
+std::atomic<bool> g_storm(false);
+void storm() {
+  sigset_t m; sigemptyset(&m); sigaddset(&m, SIGUSR1); pthread_sigmask(SIG_BLOCK, &m, NULL);
+  for (;;) { if (g_storm.load()) { kill(getpid(), SIGUSR1); usleep(150); } else usleep(2000); }
+}
+struct Storm { explicit Storm(bool on) { g_storm = on; } ~Storm() { g_storm = false; } };
 struct Deadline { explicit Deadline(long s) { g_deadline_ms = now_ms() + s * 1000; } ~Deadline() { g_deadline_ms = 0; } };
 
 std::vector<std::string> split(const std::string &s, char c) {
@@ -301,6 +321,7 @@ std::string do_pcq(std::istringstream &in) {
     // real concurrency, seeded jitter at the scheduling points; repeated; spec oracle only
     uint64_t seed = strtoull(pf[1].c_str(), 0, 10); int reps = atoi(pf[2].c_str());
     Scheduler::Get().Reset(0);
+    Storm storm_on(true);
     for (int rep = 0; rep < reps; ++rep) {
       Scheduler::Get().SetJitter(ksched::mix(seed + rep) | 1);
       RunResult r; r.got.assign(cfg.counts.size(), std::vector<int>());
@@ -391,16 +412,33 @@ struct StreamSink {
   }
 };
 
-std::string do_chain(std::istringstream &in, bool streams) {
+std::string do_chain(std::istringstream &in, bool streams, bool fill_first = false) {
   std::size_t blocks, per; std::string stages; uint32_t n; uint64_t seed;
   in >> blocks >> per >> stages >> n >> seed;
   Scheduler::Get().Reset(0);
   Scheduler::Get().SetJitter(seed);
+  Storm storm_on(seed % 3 != 0);
+  Scheduler::Get().TakeInitLog();
   std::vector<uint32_t> out; std::vector<const void*> seen;
+  std::string src_state = "-";
   {
     util::stream::ChainConfig cc(sizeof(uint32_t), blocks, blocks * per * sizeof(uint32_t));
     util::stream::Chain chain(cc);
-    if (streams) { StreamSource src; src.n = n; chain >> src; } else { Source src; src.n = n; chain >> src; }
+    std::thread filler; std::atomic<int> filled(0); std::atomic<long> filler_tid(0);
+    if (fill_first) {
+      // "fill, then drain": the source runs to completion (data and poison) before any consumer is attached.  Whether it finishes
+      // or parks (blocked in Produce / Consume) is observed from its thread state, not from a time limit.
+      util::stream::ChainPosition pos = chain.Add();
+      filler = std::thread([&, pos] {
+        filler_tid = procstate::ktid();
+        if (streams) { StreamSource src; src.n = n; src.Run(pos); } else { Source src; src.n = n; src.Run(pos); }
+        filled = 1; });
+      for (int parked = 0; !filled.load() && parked < 12;) {
+        usleep(3000);
+        parked = (filler_tid.load() && procstate::thread_parked((pid_t)filler_tid.load())) ? parked + 1 : 0;
+      }
+      src_state = filled.load() ? "done" : "parked";
+    } else if (streams) { StreamSource src; src.n = n; chain >> src; } else { Source src; src.n = n; chain >> src; }
     if (stages != "-") {
       std::vector<std::string> f = split(stages, ',');
       for (size_t i = 0; i < f.size(); ++i) {
@@ -413,6 +451,7 @@ std::string do_chain(std::istringstream &in, bool streams) {
     if (streams) { StreamSink sink; sink.out = &out; sink.limit = (std::size_t)n + 16; chain >> sink >> util::stream::kRecycle; }
     else { Sink sink; sink.out = &out; sink.blocks = &seen; chain >> sink >> util::stream::kRecycle; }
     chain.Wait(true);
+    if (filler.joinable()) filler.join();
   }
   Scheduler::Get().SetJitter(0);
   std::sort(seen.begin(), seen.end()); seen.erase(std::unique(seen.begin(), seen.end()), seen.end());
@@ -422,7 +461,75 @@ std::string do_chain(std::istringstream &in, bool streams) {
   o << "ok count=" << out.size() << " hash=" << std::hex << h << std::dec << " distinct_blocks=" << seen.size() << " head=";
   for (size_t i = 0; i < out.size() && i < 8; ++i) o << (i ? "," : "") << out[i];
   if (out.empty()) o << "-";
+  // white-box, reported separately: the capacities the chain passed to its PCQueue constructors (lead queue first)
+  std::vector<std::size_t> il = Scheduler::Get().TakeInitLog();
+  o << " src=" << src_state << " caps=";
+  for (size_t i = 0; i < il.size(); i += 2) o << (i ? "," : "") << il[i];
   return o.str();
+}
+
+// ------------------------------------------------------------------------------------------------
+// Signals delivered to threads parked in Produce / Consume.  Script: c = a new thread calls Consume once; p<v> = a new thread
+// calls Produce(v); i<n> = SIGUSR1 (no-op handler, no SA_RESTART) to the n-th thread started, three times.  After every action the
+// driver waits until every unfinished thread is parked in futex (progress-based) and reports: producers finished, consumers
+// finished, values returned so far (sorted).  Runs in a child process (threads left parked at the end are abandoned).
+std::string do_sig(std::istringstream &in) {
+  int k; in >> k;
+  std::vector<std::string> script; std::string tok;
+  while (in >> tok) script.push_back(tok);
+  int fds[2]; if (pipe(fds)) return "pipe-failed";
+  std::cout.flush();
+  pid_t pid = fork();
+  if (pid == 0) {
+    close(fds[0]);
+    Scheduler::Get().Reset(0);
+    util::PCQueue<int> *q = new util::PCQueue<int>(k);
+    struct T { std::thread th; std::atomic<long> tid; std::atomic<int> done; bool producer; int value; T() : tid(0), done(0), producer(false), value(0) {} };
+    std::vector<T*> ts;
+    std::mutex mu; std::vector<int> returned;
+    std::ostringstream o;
+    for (size_t a = 0; a < script.size(); ++a) {
+      const std::string &s = script[a];
+      if (s[0] == 'c' || s[0] == 'p') {
+        T *t = new T(); t->producer = s[0] == 'p'; t->value = t->producer ? atoi(s.c_str() + 1) : 0;
+        ts.push_back(t);
+        t->th = std::thread([t, q, &mu, &returned] {
+          sigset_t m; sigemptyset(&m); sigaddset(&m, SIGUSR1); pthread_sigmask(SIG_UNBLOCK, &m, NULL);
+          t->tid = procstate::ktid();
+          if (t->producer) q->Produce(t->value);
+          else { int v = -1; q->Consume(v); std::lock_guard<std::mutex> l(mu); returned.push_back(v); }
+          t->done = 1; });
+      } else if (s[0] == 'i') {
+        size_t n = atoi(s.c_str() + 1);
+        if (n < ts.size() && !ts[n]->done.load() && ts[n]->tid.load())
+          for (int r = 0; r < 3; ++r) { pthread_kill(ts[n]->th.native_handle(), SIGUSR1); usleep(2000); }
+      }
+      // quiescence: every thread finished, or parked in futex for 10 consecutive samples
+      for (int calm = 0, spins = 0; calm < 10 && spins < 200000; ++spins) {
+        usleep(1500);
+        bool all = true;
+        for (size_t i = 0; i < ts.size(); ++i)
+          if (!ts[i]->done.load() && !(ts[i]->tid.load() && procstate::thread_parked((pid_t)ts[i]->tid.load()))) all = false;
+        calm = all ? calm + 1 : 0;
+      }
+      int fp = 0, fc = 0;
+      for (size_t i = 0; i < ts.size(); ++i) if (ts[i]->done.load()) { if (ts[i]->producer) ++fp; else ++fc; }
+      std::vector<int> r; { std::lock_guard<std::mutex> l(mu); r = returned; } std::sort(r.begin(), r.end());
+      o << (a ? "|" : "") << "P" << fp << "C" << fc << ":";
+      for (size_t i = 0; i < r.size(); ++i) o << (i ? "," : "") << r[i];
+    }
+    std::string res = "ok " + o.str() + "\n";
+    ssize_t w = write(fds[1], res.data(), res.size()); (void)w;
+    _exit(0);
+  }
+  close(fds[1]);
+  std::string res; char buf[4096]; ssize_t n;
+  while ((n = read(fds[0], buf, sizeof buf)) > 0 || (n < 0 && errno == EINTR)) if (n > 0) res.append(buf, n);
+  close(fds[0]);
+  int status = 0; while (waitpid(pid, &status, 0) < 0 && errno == EINTR) {}
+  if (!res.empty() && res[res.size() - 1] == '\n') res.erase(res.size() - 1);
+  if (res.empty()) return std::string("child-died status=") + std::to_string(status);
+  return res;
 }
 
 // ------------------------------------------------------------------------------------------------
@@ -439,6 +546,7 @@ std::string do_pool(std::istringstream &in) {
   in >> workers >> queue >> n >> seed;
   Scheduler::Get().Reset(0);
   Scheduler::Get().SetJitter(seed);
+  Storm storm_on(seed % 3 != 0);
   PoolLog log;
   {
     util::ThreadPool<PoolHandler> pool(queue, workers, &log, -1);
@@ -501,17 +609,23 @@ std::string do_poolf(std::istringstream &in) {
 int main() {
   std::ios::sync_with_stdio(false);
   Scheduler::Get().Install();
-  std::thread(watchdog).detach();
+  { struct sigaction sa; memset(&sa, 0, sizeof sa); sa.sa_handler = noop_handler; sa.sa_flags = 0; sigemptyset(&sa.sa_mask); sigaction(SIGUSR1, &sa, NULL); }
+  std::thread([] { sigset_t m; sigemptyset(&m); sigaddset(&m, SIGUSR1); pthread_sigmask(SIG_BLOCK, &m, NULL); watchdog(); }).detach();
+  std::thread(storm).detach();
+  { sigset_t m; sigemptyset(&m); sigaddset(&m, SIGUSR1); pthread_sigmask(SIG_BLOCK, &m, NULL); }   // inherited by every thread; workers unblock at their first scheduling point
   std::string line;
   while (std::getline(std::cin, line)) {
     std::istringstream in(line); std::string kind; in >> kind;
     std::string res;
     {
-      Deadline d(kind == "PCQ" ? 60 : 10);
+      Deadline d(kind == "PCQ" ? 60 : kind == "SIG" ? 600 : 10);
       try {
         if (kind == "PCQ") res = do_pcq(in);
         else if (kind == "CHAIN") res = do_chain(in, false);
         else if (kind == "CHAINS") res = do_chain(in, true);
+        else if (kind == "CHAINF") res = do_chain(in, false, true);
+        else if (kind == "CHAINFS") res = do_chain(in, true, true);
+        else if (kind == "SIG") res = do_sig(in);
         else if (kind == "POOL") res = do_pool(in);
         else if (kind == "POOLF") res = do_poolf(in);
         else res = "bad-case";
